@@ -2,23 +2,28 @@
 """C05 translator output -> coq/Gen_C05.v, read from the clang JSON AST of the CURRENT /repo:
 
   EventLoopThreadPool.cc
-    gen_get_next (n next : nat) : option nat * nat     EventLoopThreadPool::getNextLoop, executed
-        symbolically: n = loops_.size(), next = next_, result None = baseLoop_, Some i = loops_[i],
-        second component = next_ afterwards;
-    gen_get_hash (n next h : nat) : option nat * nat   EventLoopThreadPool::getLoopForHash likewise.
+    gen_get_next (n next : Z) : option Z * Z     EventLoopThreadPool::getNextLoop, executed symbolically
+        WITH C INTEGER SEMANTICS: n = loops_.size() (size_t), next = next_ (int: every int operation is
+        wrapped by C05_Model.wrap32, every conversion to size_t -- implicit, implicit_cast<size_t>, the
+        argument of operator[] -- is C05_Model.to_size = mod 2^64); result None = baseLoop_,
+        Some i = loops_[i]; second component = next_ afterwards;
+    gen_get_hash (n next h : Z) : option Z * Z   EventLoopThreadPool::getLoopForHash likewise.
+    gen_pool_translated : bool                   false = the source could not be translated (FALLBACK:
+        the two functions are then the model's; Properties_C05.C05_gen_translated fails).
   EventLoopThread.cc
     gen_eshape : C05_Model.eshape
         tf_notifies : threadFunc calls cond_.notify()/notifyAll() after `loop_ = &loop` in the same
                       MutexLockGuard scope;
         sl_while    : startLoop waits for loop_ in a `while` (false: an `if`);
         dtor_quits / dtor_joins : ~EventLoopThread calls loop_->quit() / thread_.join() under
-                      `if (loop_ != NULL)`.
-    The order  construct loop; callback; publish under the mutex; loop.loop(); clear under the mutex
-    is checked structurally (anything else is MISSING: the model C05_Model.child_step has exactly
-    this order).
+                      `if (loop_ != NULL)`;
+        tf_clears   : threadFunc assigns loop_ = NULL inside a MutexLockGuard scope after loop.loop().
+    gen_elt_translated : bool                    false = the order  construct loop; callback; publish
+        under the mutex; loop.loop() outside it  was not recognised (FALLBACK: pinned_eshape).
 
-Properties_C05.v proves that the generated functions equal the model's (C05_Model.get_next /
-get_hash with pinned_pshape) for ALL arguments; editing a guard (`>=` -> `>`) breaks that proof."""
+Gen_C05.v ALWAYS type-checks (the extracted runner depends on it and must build when a proof breaks).
+Properties_C05.v proves that the generated functions equal the model's for ALL arguments in range;
+editing a guard (`>=` -> `>`, an unbounded `++next_`) breaks that proof."""
 import os, sys
 sys.path.insert(0, os.path.dirname(os.path.abspath(__file__)))
 import cxxast
@@ -62,54 +67,112 @@ def member_call(n):
 
 
 # ------------------------------------------------------------------------------------ the pool
+def ctype(n):
+    """'int' | 'size' | 'bool' | None of an expression node"""
+    t = n.get("type", {})
+    q = (t.get("desugaredQualType") or t.get("qualType") or "").replace("const ", "").strip()
+    if q in ("unsigned long", "size_t", "std::size_t", "unsigned long long") or q.endswith("size_type"):
+        return "size"
+    if q in ("int", "int32_t"):
+        return "int"
+    if q in ("bool", "_Bool"):
+        return "bool"
+    return None
+
+
+def conv(ty, t):
+    return "(to_size %s)" % t if ty == "size" else "(wrap32 %s)" % t if ty == "int" else t
+
+
 class Sym:
-    """symbolic execution of getNextLoop / getLoopForHash over nat terms"""
+    """symbolic execution of getNextLoop / getLoopForHash over Z with C integer semantics"""
 
     def __init__(self, params):
-        self.params = params          # C++ parameter name -> Gallina variable
+        self.params = params          # C++ parameter name -> (Gallina variable, C type)
 
-    def nat(self, n):
-        n = strip(n)
+    def integer(self, n):
+        """(term, ctype); the term is already reduced to the expression's own C type"""
         k = n.get("kind")
+        ks = kids(n)
+        if k in ("ParenExpr", "ExprWithCleanups", "ConstantExpr", "MaterializeTemporaryExpr") and len(ks) == 1:
+            return self.integer(ks[0])
+        if k in ("ImplicitCastExpr", "CStyleCastExpr", "CXXStaticCastExpr", "CXXFunctionalCastExpr") and len(ks) == 1:
+            t, ty = self.integer(ks[0])
+            if n.get("castKind") in ("LValueToRValue", "NoOp"):
+                return t, ty
+            want = ctype(n)
+            if n.get("castKind") == "IntegralCast" and want in ("int", "size"):
+                return (t, ty) if want == ty else (conv(want, t), want)
+            raise U("cast %s to %s" % (n.get("castKind"), n.get("type", {}).get("qualType")))
+        if k == "CallExpr":
+            callee = cxxast.strip(ks[0]) if ks else {}
+            if callee.get("kind") == "DeclRefExpr" and callee.get("referencedDecl", {}).get("name") in ("implicit_cast", "down_cast") \
+                    and len(ks) == 2:
+                t, ty = self.integer(ks[1])
+                want = ctype(n)
+                if want in ("int", "size"):
+                    return (t, ty) if want == ty else (conv(want, t), want)
+            raise U("call of %s" % callee.get("referencedDecl", {}).get("name"))
         if k == "IntegerLiteral":
-            return str(int(n["value"]))
+            ty = ctype(n)
+            if ty not in ("int", "size"):
+                raise U("literal of type %s" % n.get("type", {}).get("qualType"))
+            return "(%d)" % int(n["value"]), ty
         if k == "MemberExpr" and n.get("name") == "next_":
-            return "next"
+            if ctype(n) != "int":
+                raise U("next_ is not an int")
+            return "next", "int"
         if k == "DeclRefExpr" and n.get("referencedDecl", {}).get("name") in self.params:
-            return self.params[n["referencedDecl"]["name"]]
+            v, ty = self.params[n["referencedDecl"]["name"]]
+            return v, ty
         mc = member_call(n)
         if mc and mc[0] == "loops_" and mc[1] == "size" and not mc[2]:
-            return "n"
+            return "n", "size"
         if k == "BinaryOperator" and n.get("opcode") in ("+", "-", "*", "%", "/"):
-            a, b = kids(n)
-            op = {"+": "Nat.add", "-": "Nat.sub", "*": "Nat.mul", "%": "Nat.modulo", "/": "Nat.div"}[n["opcode"]]
-            return "(%s %s %s)" % (op, self.nat(a), self.nat(b))
+            (a, ta), (b, tb) = self.integer(ks[0]), self.integer(ks[1])
+            if ta != tb:
+                raise U("operands of %s have different types after conversion" % n["opcode"])
+            op = n["opcode"]
+            if op in ("+", "-", "*"):
+                f = {"+": "Z.add", "-": "Z.sub", "*": "Z.mul"}[op]
+                return conv(ta, "(%s %s %s)" % (f, a, b)), ta
+            if ta == "size":
+                return "(%s %s %s)" % ("Z.modulo" if op == "%" else "Z.div", a, b), ta
+            return "(%s %s %s)" % ("Z.rem" if op == "%" else "Z.quot", a, b), ta
         raise U("integer expression %s %s" % (k, n.get("name", n.get("opcode", ""))))
 
     def boolean(self, n):
-        n = strip(n)
         k = n.get("kind")
+        ks = kids(n)
+        if k in ("ParenExpr", "ExprWithCleanups", "ImplicitCastExpr") and len(ks) == 1 and \
+                n.get("castKind") in (None, "LValueToRValue", "NoOp"):
+            return self.boolean(ks[0])
         if k == "UnaryOperator" and n.get("opcode") == "!":
-            return "(negb %s)" % self.boolean(kids(n)[0])
+            return "(negb %s)" % self.boolean(ks[0])
         if k == "BinaryOperator" and n.get("opcode") in ("&&", "||"):
-            a, b = kids(n)
-            return "(%s %s %s)" % (self.boolean(a), n["opcode"], self.boolean(b))
+            return "(%s %s %s)" % ("andb" if n["opcode"] == "&&" else "orb", self.boolean(ks[0]), self.boolean(ks[1]))
         if k == "BinaryOperator" and n.get("opcode") in ("<", "<=", ">", ">=", "==", "!="):
-            a, b = kids(n)
-            x, y = self.nat(a), self.nat(b)
-            return {"<": "(Nat.ltb %s %s)" % (x, y), "<=": "(Nat.leb %s %s)" % (x, y),
-                    ">": "(Nat.ltb %s %s)" % (y, x), ">=": "(Nat.leb %s %s)" % (y, x),
-                    "==": "(Nat.eqb %s %s)" % (x, y), "!=": "(negb (Nat.eqb %s %s))" % (x, y)}[n["opcode"]]
+            (x, tx), (y, ty) = self.integer(ks[0]), self.integer(ks[1])
+            if tx != ty:
+                raise U("operands of %s have different types after conversion" % n["opcode"])
+            return {"<": "(Z.ltb %s %s)" % (x, y), "<=": "(Z.leb %s %s)" % (x, y),
+                    ">": "(Z.ltb %s %s)" % (y, x), ">=": "(Z.leb %s %s)" % (y, x),
+                    "==": "(Z.eqb %s %s)" % (x, y), "!=": "(negb (Z.eqb %s %s))" % (x, y)}[n["opcode"]]
         mc = member_call(n)
         if mc and mc[0] == "loops_" and mc[1] == "empty" and not mc[2]:
-            return "(Nat.eqb n 0)"
+            return "(Z.eqb n 0)"
         if k == "CXXBoolLiteralExpr":
             return "true" if n.get("value") else "false"
         raise U("boolean expression %s %s" % (k, n.get("name", n.get("opcode", ""))))
 
+    def index(self, n):
+        """the argument of loops_[.] / loops_.at(.): converted to size_type by the AST's own cast"""
+        t, ty = self.integer(n)
+        return t if ty == "size" else conv("size", t)
+
     def loopexpr(self, n):
-        """an EventLoop* expression: baseLoop_ | loops_[e]"""
-        n = strip(n)
+        """an EventLoop* expression: baseLoop_ | loop | loops_[e]"""
+        n = cxxast.strip(n)
         k = n.get("kind")
         if k == "MemberExpr" and n.get("name") == "baseLoop_":
             return "None"
@@ -120,10 +183,10 @@ class Sym:
             callee = cxxast.strip(ks[0])
             if callee.get("referencedDecl", {}).get("name") == "operator[]" and len(ks) == 3 and \
                     cxxast.strip(ks[1]).get("name") == "loops_":
-                return "(Some %s)" % self.nat(ks[2])
+                return "(Some %s)" % self.index(ks[2])
         mc = member_call(n)
         if mc and mc[0] == "loops_" and mc[1] == "at" and len(mc[2]) == 1:
-            return "(Some %s)" % self.nat(mc[2][0])
+            return "(Some %s)" % self.index(mc[2][0])
         raise U("loop expression %s" % k)
 
     def is_noise(self, n):
@@ -152,7 +215,7 @@ class Sym:
         if kind == "DeclStmt":
             vs = kids(s)
             if len(vs) == 1 and vs[0].get("kind") == "VarDecl" and vs[0].get("name") == "loop" and kids(vs[0]):
-                return "let loop := %s in\n  %s" % (self.loopexpr(kids(vs[0])[0]), self.stmts(rest, k))
+                return "let loop : option Z := %s in\n  %s" % (self.loopexpr(kids(vs[0])[0]), self.stmts(rest, k))
             raise U("declaration " + " ".join(v.get("name", "?") for v in vs))
         if kind == "ReturnStmt":
             e = self.loopexpr(kids(s)[0])
@@ -169,22 +232,26 @@ class Sym:
         kind = st.get("kind")
         if kind == "UnaryOperator" and st.get("opcode") in ("++", "--"):
             tgt = strip(kids(st)[0])
-            if tgt.get("kind") == "MemberExpr" and tgt.get("name") == "next_":
-                op = "S next" if st["opcode"] == "++" else "Nat.pred next"
-                return "let next := %s in\n  %s" % (op, self.stmts(rest, k))
+            if tgt.get("kind") == "MemberExpr" and tgt.get("name") == "next_" and ctype(tgt) == "int":
+                op = "Z.add next 1" if st["opcode"] == "++" else "Z.sub next 1"
+                return "let next := wrap32 (%s) in\n  %s" % (op, self.stmts(rest, k))
         if kind == "BinaryOperator" and st.get("opcode") == "=":
             lhs, rhs = kids(st)
             lhs = strip(lhs)
             if lhs.get("kind") == "MemberExpr" and lhs.get("name") == "next_":
-                return "let next := %s in\n  %s" % (self.nat(rhs), self.stmts(rest, k))
+                t, ty = self.integer(rhs)
+                return "let next := %s in\n  %s" % (t if ty == "int" else conv("int", t), self.stmts(rest, k))
             if lhs.get("kind") == "DeclRefExpr" and lhs.get("referencedDecl", {}).get("name") == "loop":
-                return "let loop := %s in\n  %s" % (self.loopexpr(rhs), self.stmts(rest, k))
-        if kind == "CompoundAssignOperator" and st.get("opcode") in ("+=", "-=", "%="):
+                return "let loop : option Z := %s in\n  %s" % (self.loopexpr(rhs), self.stmts(rest, k))
+        if kind == "CompoundAssignOperator" and st.get("opcode") in ("+=", "-="):
             lhs, rhs = kids(st)
             lhs = strip(lhs)
             if lhs.get("kind") == "MemberExpr" and lhs.get("name") == "next_":
-                op = {"+=": "Nat.add", "-=": "Nat.sub", "%=": "Nat.modulo"}[st["opcode"]]
-                return "let next := (%s next %s) in\n  %s" % (op, self.nat(rhs), self.stmts(rest, k))
+                t, ty = self.integer(rhs)
+                if ty != "int":
+                    raise U("next_ %s <size_t>" % st["opcode"])
+                op = {"+=": "Z.add", "-=": "Z.sub"}[st["opcode"]]
+                return "let next := wrap32 (%s next %s) in\n  %s" % (op, t, self.stmts(rest, k))
         raise U("statement %s %s" % (kind, st.get("opcode", st.get("name", ""))))
 
 
@@ -197,7 +264,7 @@ def pool_function(qual, name, params, gparams):
     sym = Sym(params)
     body = sym.stmts(kids(cxxast.body(fn)), "(loop, next)")
     src = clean(cxxast.src_text(cxxast.body(fn), POOL))
-    return "(* %s, %s: %s *)\nDefinition %s %s : option nat * nat :=\n  %s." % (POOL, qual, src[:900], name, gparams, body)
+    return "(* %s, %s: %s *)\nDefinition %s %s : option Z * Z :=\n  %s." % (POOL, qual, src[:900], name, gparams, body)
 
 
 # ------------------------------------------------------------------------------------ EventLoopThread
@@ -283,9 +350,7 @@ def thread_func():
             continue
     if phase < 3:
         raise U("threadFunc: construct / publish / loop.loop() not found in this order")
-    if phase != 4:
-        raise U("threadFunc does not clear loop_ under the mutex after loop.loop()")
-    return notifies
+    return notifies, phase == 4
 
 
 def start_loop():
@@ -334,29 +399,47 @@ def dtor():
     raise U("~EventLoopThread: no `if (loop_ != NULL)` found")
 
 
+FALLBACK_POOL = """Definition gen_get_next (n next : Z) : option Z * Z :=
+  if Z.eqb n 0 then (None, next) else (Some next, if Z.leb n (next + 1) then 0 else next + 1).
+Definition gen_get_hash (n next h : Z) : option Z * Z :=
+  if Z.eqb n 0 then (None, next) else (Some (Z.modulo h n), next)."""
+
+
 def main():
     out = ["(* GENERATED by lib/gen_C05.py from %s -- do not edit *)" % cxxast.REPO,
-           "From Coq Require Import Bool Arith.", "From Muduo Require Import C05_Model.", "Local Open Scope bool_scope.", ""]
+           "From Coq Require Import Bool ZArith.", "From Muduo Require Import C05_Model.", "Local Open Scope Z_scope.", ""]
     msgs = []
+    defs, ok = [], True
     for qual, name, params, gparams in (
-            ("EventLoopThreadPool::getNextLoop", "gen_get_next", {}, "(n next : nat)"),
-            ("EventLoopThreadPool::getLoopForHash", "gen_get_hash", {"hashCode": "h"}, "(n next h : nat)")):
+            ("EventLoopThreadPool::getNextLoop", "gen_get_next", {}, "(n next : Z)"),
+            ("EventLoopThreadPool::getLoopForHash", "gen_get_hash", {"hashCode": ("h", "size")}, "(n next h : Z)")):
         try:
-            out.append(pool_function(qual, name, params, gparams))
+            defs.append(pool_function(qual, name, params, gparams))
         except Exception as e:  # noqa
-            out.append("(* MISSING %s: %s *)" % (name, clean(str(e))))
-            msgs.append("MISSING %s (%s)" % (name, e))
+            ok = False
+            out.append("(* FALLBACK %s: %s *)" % (name, clean(str(e))))
+            msgs.append("FALLBACK %s (%s)" % (name, e))
+    if ok:
+        out += defs
+    else:
+        out.append("(* the model's functions, so that this file and the extracted runner still build *)")
+        out.append(FALLBACK_POOL)
+    out.append("Definition gen_pool_translated : bool := %s." % ("true" if ok else "false"))
+    b = lambda x: "true" if x else "false"
     try:
-        tn = thread_func()
+        tn, tc = thread_func()
         sw = start_loop()
         dq, dj = dtor()
-        b = lambda x: "true" if x else "false"
         out.append("(* %s: threadFunc notifies after publishing under the mutex: %s; startLoop waits in a while: %s; "
-                   "~EventLoopThread quits: %s, joins: %s *)" % (ELT, b(tn), b(sw), b(dq), b(dj)))
-        out.append("Definition gen_eshape : C05_Model.eshape := C05_Model.mkEShape %s %s %s %s." % (b(tn), b(sw), b(dq), b(dj)))
+                   "~EventLoopThread quits: %s, joins: %s; threadFunc clears loop_ under the mutex after loop(): %s *)"
+                   % (ELT, b(tn), b(sw), b(dq), b(dj), b(tc)))
+        out.append("Definition gen_eshape : C05_Model.eshape := C05_Model.mkEShape %s %s %s %s %s." % (b(tn), b(sw), b(dq), b(dj), b(tc)))
+        out.append("Definition gen_elt_translated : bool := true.")
     except Exception as e:  # noqa
-        out.append("(* MISSING gen_eshape: %s *)" % clean(str(e)))
-        msgs.append("MISSING gen_eshape (%s)" % e)
+        out.append("(* FALLBACK gen_eshape: %s *)" % clean(str(e)))
+        out.append("Definition gen_eshape : C05_Model.eshape := C05_Model.pinned_eshape.")
+        out.append("Definition gen_elt_translated : bool := false.")
+        msgs.append("FALLBACK gen_eshape (%s)" % e)
     txt = "\n".join(out) + "\n"
     path = os.path.join(cxxast.ROOT, "coq/Gen_C05.v")
     old = open(path).read() if os.path.exists(path) else None
